@@ -80,6 +80,8 @@ CONFIGS = {
     "thorough": [("inproc", 6), ("lib", 2), ("proc", 3)],
 }
 CHUNK = 40
+# runs of this check cost 30-800 ms each: smaller determinism sample
+SELFTEST_N = {"quick": 8, "thorough": 40}
 SEEDS = [0, 1, -1, 42, 2 ** 31, 2 ** 64 + 1]
 
 _WORK = None
